@@ -179,3 +179,18 @@ Proof.
   - now apply validate_sound.
   - apply validate_complete; auto. now apply assert_app_rel_wf.
 Qed.
+
+(** the same for the member-based reading, on coherent matchers (every matcher a successful level
+    of a definition outside the two finding families ends in: [C03_level_coherent]) *)
+Theorem validate_iff_members c mt :
+  assert_app c = true -> fm_wf mt -> keys_ok c (mt_args mt) ->
+  (forall p, In p (positionals c) -> a_index p <> None) ->
+  negb (is_some (mt_sub mt)) && is_set s_arg_required_else_help c && is_nil (explicit_entries mt) = false ->
+  negb (is_some (mt_sub mt)) && is_set s_sub_required c = false ->
+  coherent_b c mt = true ->
+  (validate c mt = VOk <-> RelationsM c mt).
+Proof.
+  intros A Wm Hk Hpos Hh Hs Hc. rewrite (validate_iff c mt A Wm Hk Hpos Hh Hs).
+  pose proof (coherent_presentM c mt (coherent_b_sound c mt Hc)) as Hp.
+  split; apply RelationsP_ext; intros x; [apply Hp|symmetry; apply Hp].
+Qed.
